@@ -91,6 +91,17 @@ C05Targets == {<<L("", "T1", "")>>, <<L("a", "T1", "")>>, <<L("", "T1", "s")>>, 
 C05Inputs == {<<L("", "T3", "")>>, <<L("a", "T3", "")>>, <<L("", "T2", "s")>>, <<L("b", "T2", ""), L("", "T3", "")>>}
 C05Family == { Scn("C05", F(t, <<>>), ins, cs) : t \in C05Targets, ins \in C05Inputs, cs \in Digraphs(IF Size = 1 THEN 3 ELSE 6) }
 
+\* single-input converters between NAMED values with cross-named sources (the shape of F17): every subset
+\* of six converters, sources named after the other chain, targets on either end of the 2-cycle
+XConvs == << F(<<L("", "T3", "")>>, <<L("a", "T1", "")>>), F(<<L("", "T4", "")>>, <<L("b", "T2", "")>>),
+             F(<<L("a", "T1", "")>>, <<L("b", "T2", "")>>), F(<<L("b", "T2", "")>>, <<L("a", "T1", "")>>),
+             F(<<L("", "T3", "")>>, <<L("b", "T2", "")>>), F(<<L("a", "T1", "")>>, <<L("", "T4", "")>>) >>
+XFamily == { Scn("C05", F(t, <<>>), ins, [i \in 1..Cardinality(S) |-> XConvs[Q(S)[i]]]) :
+               t \in {<<L("b", "T2", "")>>, <<L("a", "T1", "")>>, <<L("a", "T1", ""), L("b", "T2", "")>>},
+               ins \in {<<L("b", "T3", ""), L("a", "T4", "")>>, <<L("a", "T3", ""), L("b", "T4", "")>>, <<L("", "T3", ""), L("", "T4", "")>>,
+                        <<L("b", "T3", "")>>, <<L("a", "T4", "")>>},
+               S \in {x \in SUBSET (1..6) : Cardinality(x) >= 2 /\ Cardinality(x) <= (IF Size = 1 THEN 4 ELSE 6)} }
+
 \* C08: Redefine over single-input converter digraphs x every input filter x output filters
 C08Targets == {<<L("", "T1", "")>>, <<L("a", "T1", "")>>, <<L("", "T1", ""), L("b", "T2", "")>>}
 C08Inputs == {<<>>, <<L("", "T3", "")>>, <<L("a", "T1", "")>>, <<L("", "T1", "")>>, <<L("b", "T2", ""), L("", "T3", "")>>}
@@ -152,9 +163,9 @@ C16Family == UNION { { [Scn("C16", F(t, <<>>), ins, <<>>) EXCEPT !.ndef = nd, !.
 -----------------------------------------------------------------------------
 FamilyScenarios == CASE Family = "C03" -> C03Family
                      [] Family = "C07" -> C07Family
-                     [] Family = "C05" -> C05Family \cup CycleFamily \cup MatchFamily
+                     [] Family = "C05" -> C05Family \cup CycleFamily \cup MatchFamily \cup XFamily
                      [] Family = "C08" -> C08Family
-                     [] Family = "C02" -> CycleFamily \cup C05Family \cup MatchFamily
+                     [] Family = "C02" -> CycleFamily \cup C05Family \cup MatchFamily \cup XFamily
                      [] Family = "C06" -> CycleFamily \cup C04Family
                      [] Family = "C04" -> C04Family
                      [] Family = "C13" -> CycleFamily \cup MatchFamily
